@@ -1056,7 +1056,9 @@ GEN_SRC.update({n: gen_src(n) for n in ("SrcMyersSimpleBest",)})
 EXTRACTORS["C09"] = EXTRACTORS["C09"] + [GEN_SRC[n] for n in ("SrcMyersSimpleBest",)]
 # genlong: the constructors (`new` / `new_ambig` of simple.rs and long.rs, `MyersBuilder`)
 GEN_SRC.update({n: gen_src(n) for n in ("SrcMyersSimpleNew", "SrcMyersLongCtor", "SrcMyersBuilder")})
-EXTRACTORS["C09"] = EXTRACTORS["C09"] + [GEN_SRC[n] for n in ("SrcMyersSimpleNew", "SrcMyersLongCtor", "SrcMyersBuilder")]
+SOFT_MYERS_NEW = soft_modules(["RbV.Thm.GenSrcMyersNewSoft"], "the constructor theorems (`myers_new_source_eq_model`, word-level "
+                              "masks of `new_ambig`) no longer follow the text (property-level tie: correspondence run)")
+EXTRACTORS["C09"] = EXTRACTORS["C09"] + [GEN_SRC[n] for n in ("SrcMyersSimpleNew", "SrcMyersLongCtor", "SrcMyersBuilder")] + [SOFT_MYERS_NEW]
 # genlong: C10 — the cursor moves of the single-word traceback handler; Thm/C10.lean imports RbV.Thm.GenSrcMyersTb and restates
 GEN_SRC.update({n: gen_src(n) for n in ("SrcMyersTbState", "SrcMyersTbShort")})
 EXTRACTORS["C10"] = EXTRACTORS["C10"] + [GEN_SRC[n] for n in ("SrcMyersTbState", "SrcMyersTbShort")]
